@@ -119,7 +119,12 @@ def step (S : Spec) (V : Env) (validVer : Nat â†’ Bool) (rootAttrs : List (Nat Ã
   | ["rmfile", m, f] => match M m, parseHandle 'f' f with
     | some k, some f => some (applyOp S V rootAttrs w (.rmfile k f)) | _, _ => some (w, "bad-op")
   | ["load", m, nm, st, doc] => match M m, bytesOfHex nm, bytesOfHex doc with
-    | some k, some nm, some doc => let r := opLoad S V ((V.elemOf [65, 85, 84, 79, 83, 65, 82]).getD 0) w k nm (st == "1") doc; some (r.1, r.2.show)
+    | some k, some nm, some doc =>
+      let r := opLoad S V ((V.elemOf [65, 85, 84, 79, 83, 65, 82]).getD 0) w k nm (st == "1") doc
+      -- a merge that lists one element below two parents (known finding c03:merge-into-twin-siblings-shares-subtree): the tree model
+      -- has no value for that state; the history is cut here
+      let ids := match r.1.models[k]? with | some m' => m'.rootItems.ids | none => []
+      if ids.eraseDups.length != ids.length then some (w, "unsupported") else some (r.1, r.2.show)
     | _, _, _ => some (w, "bad-op")
   | ["ser", f] => match parseHandle 'f' f with
     | some f => some (opSerialize S V w f) | none => some (w, "bad-op")
